@@ -5,7 +5,7 @@ PROP = 'C10'
 
 
 def run(chk):
-    n = 240 if chk.tier == 'quick' else 5000
+    n = 480 if chk.tier == 'quick' else 5000
     chk.rule = ('a base scene (families synth/crop/split/chain/exact/degenerate) and one transformation of its frame '
                 + ('(index relabelling: ' + ', '.join(metamorph.LABELINGS) + '; layout: ' + ', '.join(metamorph.LAYOUTS) + ')'
                    if PROP == 'C10' else '(ceilometer renaming: ' + ', '.join(metamorph.RENAMINGS) + ', exclusion list mapped)')
